@@ -70,7 +70,14 @@ type relayWorld struct {
 	fetches atomic.Uint64 // only touched by the construction and by the cfgRefresh role
 	f       faults
 	fetchFn func(context.Context)
-	regFn   func(context.Context)
+
+	// sequential-consistency oracle for REST builder-bid requests (parameter "seqbid")
+	seq          bool
+	seqMu        sync.Mutex
+	auctions     map[bidTriple]int  // all auctions per triple
+	restAuctions map[bidTriple]int  // those started by a REST request
+	bidObs       [][]bidObservation // per role (own goroutine only)
+	regFn        func(context.Context)
 
 	constructing atomic.Bool
 	accountCalls atomic.Uint64
@@ -155,9 +162,22 @@ func (relaySecondary) SubmitValidatorRegistrations(context.Context, []*api.Versi
 
 // relayBids implements builderbid.Provider: reads all of the settings it is
 // given (as the real provider does) and answers by slot.
-type relayBids struct{}
+//
+// In scenarios with parameter "seqbid" it is the counting provider of the
+// sequential-consistency oracle for REST builder-bid requests (see judge): every
+// auction takes 2 ms (so that requests released together overlap), always has a
+// winner, and the winner's value tells the auctions of one (slot, parent,
+// proposer) apart.  That needs a counter per triple, hence a lock of the
+// harness - only in those scenarios.
+type relayBids struct{ w *relayWorld }
 
-func (relayBids) BuilderBid(_ context.Context, slot phase0.Slot, _ phase0.Hash32, _ phase0.BLSPubKey,
+type bidTriple struct {
+	slot   uint64
+	parent byte
+	pubkey phase0.BLSPubKey
+}
+
+func (b relayBids) BuilderBid(ctx context.Context, slot phase0.Slot, parent phase0.Hash32, pubkey phase0.BLSPubKey,
 	proposerConfig *beaconblockproposer.ProposerConfig, _ map[phase0.BLSPubKey]*blockrelay.BuilderConfig,
 ) (*blockauctioneer.Results, error) {
 	sum := uint64(proposerConfig.FeeRecipient[0])
@@ -165,6 +185,31 @@ func (relayBids) BuilderBid(_ context.Context, slot phase0.Slot, _ phase0.Hash32
 		sum += r.GasLimit + uint64(len(r.Address)) + uint64(r.FeeRecipient[0]) + uint64(r.Grace)
 	}
 	_ = sum
+	if b.w.seq {
+		k := bidTriple{uint64(slot), parent[0], pubkey}
+		b.w.seqMu.Lock()
+		b.w.auctions[k]++
+		n := b.w.auctions[k]
+		if b.w.roleKindOf(callOf(ctx)) == "restBid" {
+			b.w.restAuctions[k]++
+		}
+		b.w.seqMu.Unlock()
+		time.Sleep(2 * time.Millisecond)
+		p := &blockauctioneer.Participation{
+			Category: "standard",
+			Score:    big.NewInt(int64(1_000_000 + n)),
+			Bid: &builderspec.VersionedSignedBuilderBid{
+				Version: spec.DataVersionDeneb,
+				Deneb:   &deneb.SignedBuilderBid{Message: &deneb.BuilderBid{Value: uint256.NewInt(1_000_000 + uint64(n)), Pubkey: phase0.BLSPubKey{0xb1}}},
+			},
+		}
+		return &blockauctioneer.Results{
+			Participation:        map[string]*blockauctioneer.Participation{"relay": p},
+			AllProviders:         []builderclient.BuilderBidProvider{},
+			WinningParticipation: p,
+			Providers:            []builderclient.BuilderBidProvider{},
+		}, nil
+	}
 	switch uint64(slot) % 3 {
 	case 0:
 		return &blockauctioneer.Results{
@@ -226,7 +271,8 @@ const relaySeqs = 5
 
 func buildRelay(sc *Scenario) (world, error) {
 	relayServers()
-	w := &relayWorld{sc: sc, accts: newFixedAccounts(relayVals), bodies: relayBodies(sc.P["cfgs"]), f: newFaults(sc.P)}
+	w := &relayWorld{sc: sc, accts: newFixedAccounts(relayVals), bodies: relayBodies(sc.P["cfgs"]), f: newFaults(sc.P),
+		seq: sc.P["seqbid"] == 1, auctions: map[bidTriple]int{}, restAuctions: map[bidTriple]int{}, bidObs: make([][]bidObservation, len(sc.Roles))}
 	w.clock = newClock(32, 32*10)
 	ctx, cancel := context.WithCancel(context.Background())
 	w.cancel = cancel
@@ -248,7 +294,7 @@ func buildRelay(sc *Scenario) (world, error) {
 		standardrelay.WithValidatorRegistrationSigner(relaySigner{w.f}),
 		standardrelay.WithSecondaryValidatorRegistrationsSubmitters([]consensusclient.ValidatorRegistrationsSubmitter{relaySecondary{}}),
 		standardrelay.WithReleaseVersion("verif"),
-		standardrelay.WithBuilderBidProvider(relayBids{}),
+		standardrelay.WithBuilderBidProvider(relayBids{w}),
 	)
 	if err != nil {
 		cancel()
@@ -299,6 +345,21 @@ func relaySemaphore(svc *standardrelay.Service) *semaphore.Weighted {
 	return nil
 }
 
+type bidObservation struct {
+	k     bidTriple
+	rep   int
+	value uint64 // 0: no bid
+}
+
+// roleKindOf: the kind of the role an operation (call id) belongs to.
+func (w *relayWorld) roleKindOf(call uint64) string {
+	i := int(call>>12&0xfff) - 1
+	if call == 0 || i < 0 || i >= len(w.sc.Roles) {
+		return ""
+	}
+	return w.sc.Roles[i].Kind
+}
+
 func (w *relayWorld) prepare(int) {
 	if w.sc.P["fresh"] == 1 {
 		// a refresh that completed before the overlapping operations start
@@ -306,7 +367,7 @@ func (w *relayWorld) prepare(int) {
 	}
 }
 
-func (w *relayWorld) run(rep int, _ int, _ *Role, op *Op, call uint64) {
+func (w *relayWorld) run(rep int, ri int, _ *Role, op *Op, call uint64) {
 	ctx := withCall(context.Background(), call)
 	slot := phase0.Slot(uint64(rep)*4 + op.A%4 + 320)
 	val := op.B % 6
@@ -332,7 +393,16 @@ func (w *relayWorld) run(rep int, _ int, _ *Role, op *Op, call uint64) {
 	case "auction":
 		_, _ = w.svc.AuctionBlock(ctx, slot, phase0.Hash32{byte(op.A)}, pubKeyOf(val%relayVals))
 	case "bid":
-		_, _ = w.svc.BuilderBid(ctx, slot, phase0.Hash32{byte(op.A)}, pubKeyOf(val))
+		bid, err := w.svc.BuilderBid(ctx, slot, phase0.Hash32{byte(op.A)}, pubKeyOf(val))
+		if w.seq && err == nil {
+			o := bidObservation{k: bidTriple{uint64(slot), byte(op.A), pubKeyOf(val)}, rep: rep}
+			if bid != nil {
+				if v, err := bid.Value(); err == nil {
+					o.value = v.Uint64()
+				}
+			}
+			w.bidObs[ri] = append(w.bidObs[ri], o)
+		}
 	case "regs":
 		var regs []*relaytypes.SignedValidatorRegistration
 		for i := uint64(0); i < 6; i++ {
@@ -349,9 +419,59 @@ func (w *relayWorld) run(rep int, _ int, _ *Role, op *Op, call uint64) {
 	}
 }
 
-func (w *relayWorld) finish(int) string      { return "" }
-func (w *relayWorld) judge(ev.TB, *Scenario) {}
-func (w *relayWorld) close()                 { w.cancel() }
+func (w *relayWorld) finish(int) string { return "" }
+
+// judge: REST builder-bid requests for one (slot, parent, proposer) are
+// serialised by vouch (builderBidMu, re-check of the cache under it): whatever
+// the overlap, at most one of them runs an auction and all of them are served
+// that auction's bid - the result of running them one after the other.  Triples
+// that a proposal job auctions too are left out: that auction legitimately
+// replaces the cached bid between two requests.
+func (w *relayWorld) judge(t ev.TB, sc *Scenario) {
+	if !w.seq {
+		return
+	}
+	byJob := map[[2]uint64]bool{} // (slot offset = parent byte, validator)
+	for _, r := range sc.Roles {
+		for _, op := range r.Ops {
+			if op.K == "auction" {
+				byJob[[2]uint64{op.A % 4, (op.B % 6) % relayVals}] = true
+			}
+		}
+	}
+	values := map[bidTriple]map[uint64]bool{}
+	for _, obs := range w.bidObs {
+		for _, o := range obs {
+			if o.value == 0 {
+				continue
+			}
+			if values[o.k] == nil {
+				values[o.k] = map[uint64]bool{}
+			}
+			values[o.k][o.value] = true
+		}
+	}
+	checked := int64(0)
+	for k, vs := range values {
+		excluded := false
+		for v := uint64(0); v < relayVals; v++ {
+			if pubKeyOf(v) == k.pubkey && byJob[[2]uint64{uint64(k.parent) % 4, v}] {
+				excluded = true
+			}
+		}
+		if excluded {
+			continue
+		}
+		checked++
+		if n := w.restAuctions[k]; n > 1 || len(vs) > 1 {
+			ev.Violation(t, "not-sequentially-consistent:builderbid", sc,
+				"REST builder-bid requests for slot %d parent %#02x.. proposer %#x..: %d auctions were run for them and they were served %d different bids %v; served one after the other they share one auction and one bid",
+				k.slot, k.parent, k.pubkey[:3], n, len(vs), vs)
+		}
+	}
+	ev.LabelN("builderbid-triples-checked", checked)
+}
+func (w *relayWorld) close() { w.cancel() }
 
 func init() {
 	rep := func(lo, hi int, one func(t *rapid.T) Op) func(t *rapid.T, p map[string]uint64, inst, n int) []Op {
@@ -377,8 +497,20 @@ func init() {
 				gen: rep(1, 6, func(t *rapid.T) Op { return Op{K: "pcfg", B: val(t)} })},
 			{kind: "auction", max: 2, why: "'Early beacon block proposal for slot N' jobs",
 				gen: rep(1, 3, func(t *rapid.T) Op { return Op{K: "auction", A: slot(t), B: val(t)} })},
-			{kind: "restBid", max: 3, why: "REST daemon: one goroutine per builder-bid request of a beacon node",
-				gen: rep(1, 3, func(t *rapid.T) Op { return Op{K: "bid", A: slot(t), B: val(t)} })},
+			{kind: "restBid", max: 4, why: "REST daemon: one goroutine per builder-bid request of a beacon node",
+				gen: func(t *rapid.T, p map[string]uint64, _, _ int) []Op {
+					n := rapid.IntRange(1, 3).Draw(t, "nOps")
+					ops := make([]Op, n)
+					for i := range ops {
+						// several beacon nodes ask for the same proposal: half of the requests are for the scenario's hot triple
+						if rapid.Bool().Draw(t, "hot") {
+							ops[i] = Op{K: "bid", A: p["hotSlot"], B: p["hotVal"]}
+						} else {
+							ops[i] = Op{K: "bid", A: slot(t), B: val(t)}
+						}
+					}
+					return ops
+				}},
 			{kind: "restRegs", max: 2, why: "REST daemon: one goroutine per validator-registrations request",
 				gen: rep(1, 2, func(t *rapid.T) Op { return Op{K: "regs", B: rapid.Uint64Range(1, 63).Draw(t, "mask")} })},
 		},
@@ -387,6 +519,9 @@ func init() {
 				"cfgs":        rapid.Uint64Range(0, relaySeqs-1).Draw(t, "cfgs"),
 				"fresh":       rapid.Uint64Range(0, 1).Draw(t, "fresh"),
 				"fallbackGas": rapid.SampledFrom([]uint64{30000000, 36000000}).Draw(t, "fallbackGas"),
+				"seqbid":      rapid.Uint64Range(0, 1).Draw(t, "seqbid"),
+				"hotSlot":     rapid.Uint64Range(0, 3).Draw(t, "hotSlot"),
+				"hotVal":      rapid.Uint64Range(0, 5).Draw(t, "hotVal"),
 			}
 			genFaults(t, p)
 			return p
